@@ -158,6 +158,10 @@ struct WalTrace {
   root: PathBuf,
   snapshot: Option<Snapshot>,
   anomalies: Vec<String>,
+  /// API-level queue (operations acknowledged and neither committed nor rolled back) as of the
+  /// last call that returned, and the operations appended by the call in progress
+  api_queue: Vec<RecInfo>,
+  cur_call_ops: Vec<RecInfo>,
 }
 
 #[derive(Clone)]
@@ -165,6 +169,8 @@ struct Snapshot {
   durable: Vec<(RecInfo, usize)>,
   durable_bytes: Vec<u8>,
   pending: Vec<PendOp>,
+  /// operations a restarted writer may legitimately recover at this point
+  allowed: Vec<RecInfo>,
 }
 
 fn copy_dir(from: &Path, to: &Path) {
@@ -190,6 +196,9 @@ impl WalTrace {
         } else {
           self.next_infos.remove(0)
         };
+        if info != RecInfo::Commit {
+          self.cur_call_ops.push(info.clone());
+        }
         self.pending.push(PendOp::Write(info, ev.data.clone().unwrap_or_default()));
       }
       return;
@@ -208,7 +217,9 @@ impl WalTrace {
     self.boundaries += 1;
     if self.snap_at == Some(self.boundaries) && self.snapshot.is_none() {
       copy_dir(&self.root, &self.snap_dir);
-      self.snapshot = Some(Snapshot { durable: self.durable.clone(), durable_bytes: self.durable_bytes.clone(), pending: self.pending.clone() });
+      let mut allowed = self.api_queue.clone();
+      allowed.extend(self.cur_call_ops.iter().cloned());
+      self.snapshot = Some(Snapshot { durable: self.durable.clone(), durable_bytes: self.durable_bytes.clone(), pending: self.pending.clone(), allowed });
     }
   }
 }
@@ -338,6 +349,7 @@ fn run_sessions(drv: &mut Driver, case: &Value, s: &mut Summary) {
         t.durable.push((info, vl + 1 + pl + 4));
       }
     }
+    trace.lock().unwrap().api_queue = queue.clone();
     let crash = sess.get("crash").filter(|c| !c.is_null()).cloned();
     // first pass without snapshot target to count boundaries is avoided: the target is given as a
     // fraction and resolved against the number of boundaries of a dry run on a copy
@@ -460,6 +472,25 @@ fn run_sessions(drv: &mut Driver, case: &Value, s: &mut Summary) {
       if mr["pending"] != json!(real_q) {
         s.disagree("wal.recovered-queue", &sub, json!(real_q), mr["pending"].clone());
       }
+      // finder (API level): nothing that a returned commit or rollback disposed of may come back
+      {
+        let mut rest: Vec<Value> = snap.allowed.iter().map(info_json).collect();
+        let mut resurrected = None;
+        for op in real_q.iter() {
+          match rest.iter().position(|x| x == op) {
+            Some(i) => {
+              rest.drain(..=i);
+            }
+            None => {
+              resurrected = Some(op.clone());
+              break;
+            }
+          }
+        }
+        if let Some(op) = resurrected {
+          s.fail("recovered-queue.disposed-op-returns", "a restarted writer recovers an operation that a returned commit or rollback had already disposed of", &sub, json!({"recovered": real_q, "allowed": snap.allowed.iter().map(info_json).collect::<Vec<_>>(), "op": op}));
+        }
+      }
       // finder: exactly the durable-complete operations, in order
       let exp_q: Vec<Value> = exp_queue.iter().map(info_json).collect();
       if json!(exp_q) != json!(real_q) {
@@ -560,6 +591,11 @@ fn run_calls(
           w = None;
         }
         _ => {}
+      }
+      {
+        let mut t = trace.lock().unwrap();
+        t.api_queue = queue.clone();
+        t.cur_call_ops.clear();
       }
     }
     drop(w);
